@@ -44,18 +44,18 @@ func addConfig(c *rtgen.Config) *rcfg {
 	return &rcfg{name, c, rt}
 }
 
-// makePenultimate cuts the path after the hop that follows the current one (so that the
-// current hop is the penultimate one). false: not possible without a one-hop segment.
-func makePenultimate(d *rtgen.Desc) bool {
+// cutAfter cuts the path so that exactly `keep` hop fields follow the current one.
+// false: not possible without leaving a one-hop segment.
+func cutAfter(d *rtgen.Desc, keep int) bool {
 	n := len(d.Hops)
-	want := int(d.CurrHF) + 2
+	want := int(d.CurrHF) + 1 + keep
 	if want > n {
 		return false
 	}
 	if want == n {
 		return true
 	}
-	s := int(d.InfIndexForHF(d.CurrHF + 1))
+	s := int(d.InfIndexForHF(uint8(want - 1)))
 	start := 0
 	for i := 0; i < s; i++ {
 		start += int(d.SegLen[i])
@@ -72,12 +72,23 @@ func makePenultimate(d *rtgen.Desc) bool {
 	return true
 }
 
-func position(d *rtgen.Desc) string {
+// crossesOver: the scenario is a packet on which this router performs the cross-over itself.
+func crossesOver(sc *rtgen.Scenario) bool {
+	return len(sc.Local) == 2 && sc.Ing.Kind == rtgen.IngExt
+}
+
+// position of the hop field the router verifies last.
+func position(sc *rtgen.Scenario) string {
+	d := sc.Desc
 	switch len(d.Hops) - int(d.CurrHF) {
 	case 1:
 		return "last"
 	case 2:
 		return "penultimate"
+	case 3:
+		if crossesOver(sc) {
+			return "xover-penultimate"
+		}
 	}
 	return "other"
 }
@@ -145,7 +156,7 @@ func emitEpic(stream string, rc *rcfg, sc *rtgen.Scenario, pl plan) {
 		return
 	}
 	d := sc.Desc
-	pos := position(d)
+	pos := position(sc)
 	auth, haveAuth := authOf(rc.cfg, sc)
 	var o rtgen2.Obs
 	var e rtgen2.Epic
@@ -177,7 +188,7 @@ func emitEpic(stream string, rc *rcfg, sc *rtgen.Scenario, pl plan) {
 				switch pos {
 				case "last":
 					e.LHVF = m
-				case "penultimate":
+				case "penultimate", "xover-penultimate":
 					e.PHVF = m
 				}
 			}
@@ -402,8 +413,9 @@ func main() {
 	run.CaseType = "RouterEpic.case"
 	run.ShardSize = 200
 	run.Rule = "EPIC packets built from rtgen's valid-by-construction SCION paths (first hop, transit, cross-over at ingress " +
-		"and egress router, peering out/in, inbound; both directions; external / sibling / internal ingress), one third " +
-		"cut so that the current hop is the penultimate one, inbound = last hop; packet timestamp ~1 s before now " +
+		"and egress router, peering out/in, inbound; both directions; external / sibling / internal ingress), two thirds " +
+		"cut so that the hop field the router verifies last is the penultimate one (the current one, or the one it " +
+		"crosses over to), inbound = last hop; packet timestamp ~1 s before now " +
 		"(window [now-3s, now+1s]; a run whose clock samples before/after disagree about freshness is repeated), the " +
 		"PHVF/LHVF computed with the real libepic.CalcMac over the really verified hop's real path.FullMAC; streams: " +
 		"(1) valid, (2) embedded path mutated with rtgen's 24 mutations (EPIC fields valid for the mutated packet), " +
@@ -426,7 +438,11 @@ func main() {
 		rc := cfgs[i%len(cfgs)]
 		sc := rtgen.GenValid(r, rc.cfg, nowSec, kinds[i%len(kinds)])
 		if i%3 != 2 {
-			makePenultimate(sc.Desc)
+			if crossesOver(sc) {
+				cutAfter(sc.Desc, 2) // the cross-over leads to the penultimate hop field
+			} else {
+				cutAfter(sc.Desc, 1)
+			}
 		}
 		return rc, sc
 	}
